@@ -26,6 +26,7 @@ Require Import V.Proofs.LossyProofs.
 Require Import V.Proofs.C08Proofs.
 Require Import V.Model.BroadcastThreads.
 Require Import V.Proofs.BroadcastThreadsProofs.
+Require Import V.Proofs.BroadcastOrder.
 Open Scope Z_scope.
 
 (* K1: the layout constants the model uses are the ones the compiler produced *)
@@ -248,6 +249,116 @@ Proof.
   - unfold conc_ok, msg_ok. cbn [fst snd length]. repeat split; try (repeat constructor; reflexivity); try reflexivity; try lia.
   - vm_compute. reflexivity.
   - vm_compute. split; [reflexivity|]. intros [H|[H|[H|[H|[]]]]]; discriminate H.
+Qed.
+
+(* ---------------------------------------------------------------- C08_seqlock in full: interleaved order and loss reporting
+   (Proofs/BroadcastOrder.v).  The sequential theorems C08_order / C08_complete / C08_overrun for one transmitter
+   thread || one copying receiver thread under EVERY schedule, as one inductive invariant of the two pc-machines.
+
+   `jst all i0 ann i lost` judges the receiver's results so far (newest first; `ann` pairs each result with a message
+   number, meaningful for deliveries) against `all`, the messages handed to transmit (those sent before the receiver
+   existed first), i0 = the number of the message the receiver joined at (the last one sent before it existed):
+     - a delivery `RMsg ty bs` annotated j requires  nth_error all j = Some (ty, bs)  - the event handed to the handler
+       IS transmitted message number j, same type, same bytes, never a mixture;
+     - i (initially i0) is the number of the first message neither delivered nor skipped yet; a delivery needs i <= j and
+       moves i to j + 1: message numbers strictly increase - transmission order, no duplicate;
+     - j > i (messages i .. j-1 skipped) is allowed only when `lost`: an error (UnableToKeepUp; or BufferTooSmall for a
+       message larger than the scratch buffer) has been returned since the previous delivery (or since the start).
+   Class exclusion, exactly the class lap-inside-receive-next of KNOWN_FINDINGS.txt: `h_in g` is set when the
+   receive_next of the code as found reads a header word (length / type at its cursor - which after a failed
+   validation is the `latest` counter it has just read -, length at offset 0 after a padding record) while
+   tail-intent > position of that record + capacity, i.e. the receiver is lapped inside receive_next and computes
+   cursor / next_record from overwritten bytes. *)
+Theorem C08_interleaved : forall cap k m hv c0 pre msgs nrecv sched,
+  cap = 2 ^ k -> 5 <= k <= 30 -> conc_ok cap c0 pre msgs ->
+  let g := hrun cap m hv W64 (hinit cap c0 pre msgs nrecv) sched in
+  h_s g = run_schedule m W64 hv cap (init_cstate cap c0 pre msgs nrecv) sched /\
+  (h_in g = false ->
+   exists ann i lost, map fst ann = r_out (c_rx (h_s g)) /\
+     jst (transmitted_pre cap pre ++ msgs) (Nat.pred (length (transmitted_pre cap pre))) ann i lost).
+Proof.
+  intros cap k m hv c0 pre msgs nrecv sched Hc Hk OK g.
+  destruct (interleaved cap k Hc Hk m hv W64 ltac:(discriminate) _ _ c0 pre msgs nrecv sched OK eq_refl eq_refl) as [E J].
+  split; [exact E|]. intros Hin. apply J. intros _. exact Hin.
+Qed.
+Print Assumptions C08_interleaved.
+
+(* the repaired receive_next (fixes/C08-receive-next-revalidate.diff): every schedule, no exclusion *)
+Theorem C08_interleaved_repaired : forall cap k m hv c0 pre msgs nrecv sched,
+  cap = 2 ^ k -> 5 <= k <= 30 -> conc_ok cap c0 pre msgs ->
+  let g := hrun cap m hv W64R (hinit cap c0 pre msgs nrecv) sched in
+  h_s g = run_schedule m W64R hv cap (init_cstate cap c0 pre msgs nrecv) sched /\
+  exists ann i lost, map fst ann = r_out (c_rx (h_s g)) /\
+    jst (transmitted_pre cap pre ++ msgs) (Nat.pred (length (transmitted_pre cap pre))) ann i lost.
+Proof.
+  intros cap k m hv c0 pre msgs nrecv sched Hc Hk OK g.
+  destruct (interleaved cap k Hc Hk m hv W64R ltac:(discriminate) _ _ c0 pre msgs nrecv sched OK eq_refl eq_refl) as [E J].
+  split; [exact E|]. apply J. intros Rv. discriminate Rv.
+Qed.
+Print Assumptions C08_interleaved_repaired.
+
+(* what the judgement implies: the events handed to the handler (oldest first) are a subsequence of the transmitted
+   messages - the interleaved C08_order *)
+Theorem C08_interleaved_order : forall all i0 ann i lost,
+  jst all i0 ann i lost -> subseq (handed (map fst ann)) all.
+Proof. intros all i0 ann i lost J. rewrite <- dels_handed. exact (jst_order all i0 ann i lost J). Qed.
+Print Assumptions C08_interleaved_order.
+
+(* C08_seqlock of DESIGN.md for the repaired code, every schedule: every message handed to the handler is byte-identical
+   to one of the transmitted messages.  (C08_seqlock_partial above is the statement for the code as found.) *)
+Theorem C08_seqlock : forall cap k m hv c0 pre msgs nrecv sched,
+  cap = 2 ^ k -> 5 <= k <= 30 -> conc_ok cap c0 pre msgs ->
+  let s := run_schedule m W64R hv cap (init_cstate cap c0 pre msgs nrecv) sched in
+  Forall (fun res => match res with RMsg ty bs => In (ty, bs) (transmitted_pre cap pre ++ msgs) | _ => True end)
+         (r_out (c_rx s)) /\
+  subseq (handed (r_out (c_rx s))) (transmitted_pre cap pre ++ msgs).
+Proof.
+  intros cap k m hv c0 pre msgs nrecv sched Hc Hk OK s.
+  destruct (C08_interleaved_repaired cap k m hv c0 pre msgs nrecv sched Hc Hk OK) as [E (ann & i & lost & Ea & J)].
+  cbv zeta in E. unfold s. rewrite <- E, <- Ea.
+  pose proof (C08_interleaved_order _ _ _ _ _ J) as Sub. split; [|exact Sub].
+  apply Forall_forall. intros res Hres. destruct res; auto.
+  apply (subseq_In _ _ Sub). apply handed_In. exact Hres.
+Qed.
+Print Assumptions C08_seqlock.
+
+(* the repaired code is never in the class *)
+Theorem C08_repaired_not_in_class : forall cap m hv g sched,
+  h_in (hrun cap m hv W64R g sched) = h_in g.
+Proof. intros. apply hrun_in_repaired. reflexivity. Qed.
+Print Assumptions C08_repaired_not_in_class.
+
+(* non-vacuity, capacity 64, seven 8-byte messages (four records fill the buffer).
+   (1) code as found, outside the class: message 1 is delivered, the transmitter then sends five more (a lap) while the
+       receiver is between two receives; the next receive reports UnableToKeepUp, the one after it finds nothing, and
+       after message 7 has been sent it is delivered: numbers 0 and 6, the gap preceded by the report.
+   (2) the receiver is stopped right after the validation inside receive_next while the transmitter laps it: the run is
+       in the class (code as found) ...
+   (3) ... and on the same schedule the repaired code reports the loss and then delivers message 6 *)
+Definition ex_msgs : list (Z * list Z) :=
+  [(1, payload 11 8); (2, payload 12 8); (3, payload 13 8); (4, payload 14 8); (5, payload 15 8); (6, payload 16 8); (7, payload 17 8)].
+Example C08_interleaved_example :
+  let s1 := repeat 0 7%nat ++ repeat 1 9%nat ++ repeat 0 35%nat ++ repeat 1 6%nat ++ repeat 0 7%nat ++ repeat 1 9%nat in
+  let s2 := repeat 0 7%nat ++ repeat 1 2%nat ++ repeat 0 35%nat ++ repeat 1 30%nat in
+  let g1 := hrun 64 Debug true W64 (hinit 64 1099511627776 [] ex_msgs 4) s1 in
+  let g2 := hrun 64 Debug true W64 (hinit 64 1099511627776 [] ex_msgs 4) s2 in
+  let g3 := hrun 64 Debug true W64R (hinit 64 1099511627776 [] ex_msgs 4) s2 in
+  conc_ok 64 1099511627776 [] ex_msgs /\
+  (h_in g1 = false /\
+   rev (r_out (c_rx (h_s g1))) = [RMsg 1 (payload 11 8); RErr UnableToKeepUp; RNone; RMsg 7 (payload 17 8)] /\
+   jst ex_msgs 0 [(RMsg 7 (payload 17 8), 6%nat); (RNone, 0%nat); (RErr UnableToKeepUp, 0%nat); (RMsg 1 (payload 11 8), 0%nat)] 7 false) /\
+  h_in g2 = true /\
+  (h_in g3 = false /\ rev (r_out (c_rx (h_s g3))) = [RErr UnableToKeepUp; RMsg 6 (payload 16 8); RNone; RNone]).
+Proof.
+  cbn zeta. split; [|split; [split; [|split]|split; [|split]]].
+  - unfold conc_ok, msg_ok, ex_msgs. cbn [fst snd length]. repeat split; try (repeat constructor; reflexivity); try reflexivity; try lia.
+  - vm_compute. reflexivity.
+  - vm_compute. reflexivity.
+  - eapply j_msg; [eapply j_none; eapply j_err; eapply (j_msg ex_msgs 0 [] 0 false); [constructor|reflexivity|lia|auto]
+                  |reflexivity|lia|discriminate].
+  - vm_compute. reflexivity.
+  - vm_compute. reflexivity.
+  - vm_compute. reflexivity.
 Qed.
 
 (* lag jumps (Spec/LossyJump.v) are a harness device; without jumps the jump-aware runs and oracle are the plain ones *)
